@@ -140,6 +140,14 @@ pub fn run(toks: &[&str]) -> String {
                 let _ = srv.send_to(&[1, 2, 3], &path);
                 continue;
             }
+            if s.mode == 4 {
+                // chronyd is there and answers, but not with tracking data (e.g. it refuses the command)
+                let reply = Reply { status: Status::Unauth, cmd: 33, sequence: req.sequence, body: ReplyBody::Null };
+                let mut out = BytesMut::with_capacity(reply.length());
+                reply.serialize(&mut out);
+                let _ = srv.send_to(&out, &path);
+                continue;
+            }
             // fresh reference time, leap = tag (0..2), interval 4 s: the report itself is not judged here
             let (rs, rn) = vclock::get_real();
             let t = mk_tracking(s.refid, (s.tag % 3) as u16, rs, rn as u32, (s.tag as u32) << 8, 0, 0, 4 << 25 | 1 << 23);
